@@ -4,6 +4,7 @@ package main
 // bodies with loops cut at their headers, calls replaced by contracts.
 
 import (
+	"sync"
 	"fmt"
 	"go/ast"
 	"go/constant"
@@ -72,6 +73,7 @@ type Ctx struct {
 	recips    map[string]T
 	defOf     map[string]string
 	stores    map[string]storeInfo
+	ites      map[string][3]T // merged heaps: ite term -> (cond, then, else)
 	distinctGrp map[string]int
 	paramIDs  map[string]bool
 	unfoldDepth int
@@ -307,6 +309,7 @@ type Frame struct {
 	curBlock *ssa.BasicBlock
 	timeLoop *loopInfo
 	inputs   map[*ssa.Parameter]bool
+	defers   []*ssa.Defer
 }
 
 type retInfo struct {
@@ -368,6 +371,11 @@ func (c *Ctx) freshVal(st *State, name string, t types.Type) Val {
 			tv[i] = c.freshVal(st, fmt.Sprintf("%s_%d", name, i), u.At(i).Type())
 		}
 		return tv
+	case *types.Struct:
+		// a struct value: an object of its own (value semantics: copied on load/store)
+		r := c.fresh(name+"_sref", SInt)
+		c.emit(fmt.Sprintf("(assert (and (> %s 0) (< %s %s)))", r.S, r.S, st.alloc.S))
+		return StructPtr{r, typeKey(t), u, t}
 	}
 	return OpaqueV{t.String()}
 }
@@ -683,11 +691,25 @@ func (c *Ctx) defVal(prefix string, v Val) Val {
 func (c *Ctx) mergeStates(cond T, a, b *State) *State {
 	n := &State{heaps: map[string]T{}, cells: map[string]Val{}}
 	n.reach = c.def("reach", or(a.reach, b.reach))
-	n.alloc = c.def("alloc", ite(cond, a.alloc, b.alloc))
+	if a.alloc.S == b.alloc.S {
+		n.alloc = a.alloc
+	} else {
+		// a named counter (never inlined): ids handed out after the join stay
+		// recognisable as allocation-based
+		n.alloc = c.fresh("alloc", SInt)
+		c.emit(fmt.Sprintf("(assert (= %s %s))", n.alloc.S, ite(cond, a.alloc, b.alloc).S))
+	}
 	for _, k := range unionKeys(a.heaps, b.heaps) {
 		ha := c.heap(a, k, c.heapSortOf(k, a, b))
 		hb := c.heap(b, k, c.heapSortOf(k, a, b))
-		n.heaps[k] = c.def("H_"+k, ite(cond, ha, hb))
+		m := ite(cond, ha, hb)
+		if c.ites == nil {
+			c.ites = map[string][3]T{}
+		}
+		if m.S != ha.S && m.S != hb.S {
+			c.ites[m.S] = [3]T{cond, ha, hb}
+		}
+		n.heaps[k] = c.def("H_"+k, m)
 	}
 	for _, k := range unionKeysV(a.cells, b.cells) {
 		va, oka := a.cells[k]
@@ -838,7 +860,7 @@ func (c *Ctx) constVal(k *ssa.Const) Val {
 	case b.Info()&types.IsFloat != 0:
 		return ratLit(constRat(k.Value))
 	case b.Info()&types.IsString != 0:
-		return intLit(int64(len(constant.StringVal(k.Value))) + 1000000)
+		return intLit(internString(constant.StringVal(k.Value)))
 	}
 	return OpaqueV{"const " + t.String()}
 }
@@ -1010,16 +1032,35 @@ func (fr *Frame) execInstr(instr ssa.Instruction, st *State) {
 				return
 			}
 		}
+		if fs, ok := f.Type().Underlying().(*types.Struct); ok {
+			fr.vals[in] = StructPtr{sp.Ref, sp.Key + "." + f.Name(), fs, f.Type()}
+			return
+		}
 		fr.vals[in] = FieldPtr{sp.Ref, sp.Key, f.Name(), f.Type()}
+	case *ssa.Field:
+		sp, ok := fr.get(in.X).(StructPtr)
+		if !ok {
+			panic(vcErr("Field on %T", fr.get(in.X)))
+		}
+		f := sp.Typ.Field(in.Field)
+		if f.Embedded() {
+			if es, ok := f.Type().Underlying().(*types.Struct); ok {
+				fr.vals[in] = StructPtr{sp.Ref, typeKey(f.Type()), es, f.Type()}
+				return
+			}
+		}
+		fr.vals[in] = fr.loadLoc(st, "F."+sp.Key+"."+f.Name(), sp.Ref, f.Type())
 	case *ssa.Slice:
 		fr.vals[in] = fr.sliceOp(in, st)
 	case *ssa.MakeSlice:
 		es, ok := sortOfBasic(in.Type().Underlying().(*types.Slice).Elem())
-		if !ok {
-			panic(vcErr("make of slice of %s", in.Type()))
-		}
 		n := fr.get(in.Len).(T)
 		c.oblige(st, "bounds", "", nil, app(SBool, ">=", n, intLit(0)), in.Pos(), "make: length >= 0")
+		if !ok {
+			// elements that are not scalars (interface{}, slices): only the length is modelled
+			fr.vals[in] = SliceV{c.newID(st), intLit(0), n, "", in.Type().Underlying().(*types.Slice).Elem()}
+			return
+		}
 		id := c.newID(st)
 		h := c.heap(st, "H."+string(es), heapSort(es))
 		c.setHeap(st, "H."+string(es), c.def("H", c.sto(h, id, zeroOf(arrSort(es)))), &id)
@@ -1081,7 +1122,18 @@ func (fr *Frame) execInstr(instr ssa.Instruction, st *State) {
 				}
 			}
 		}
+	case *ssa.Defer:
+		// only unconditional defers of the entry block: they run, last first, at
+		// every return (panics are excluded separately by the safety obligations)
+		if in.Block() != fr.fn.Blocks[0] {
+			panic(vcErr("defer outside the entry block of %s is not modelled", fr.fn))
+		}
+		fr.defers = append(fr.defers, in)
 	case *ssa.RunDefers:
+		for i := len(fr.defers) - 1; i >= 0; i-- {
+			d := fr.defers[i]
+			fr.call(deferValue{d}, &d.Call, st)
+		}
 	case *ssa.MakeMap:
 		fr.vals[in] = MapV{map[string]Val{}}
 	case *ssa.MapUpdate:
@@ -1091,13 +1143,25 @@ func (fr *Frame) execInstr(instr ssa.Instruction, st *State) {
 		}
 		k, ok := in.Key.(*ssa.Const)
 		if !ok {
-			panic(vcErr("map update with non-constant key"))
+			// symbolic key: the map's contents are no longer tracked
+			m.Entries["\x00untracked"] = OpaqueV{"map with symbolic keys"}
+			return
 		}
 		m.Entries[k.Value.ExactString()] = fr.get(in.Value)
 	case *ssa.Lookup:
+		if ov, isOpaque := fr.get(in.X).(OpaqueV); isOpaque && !in.CommaOk {
+			// a map that is not modelled (global registry): the entry is an
+			// unknown value of its type; for a function type it may be nil
+			c.note("lookup in " + ov.Desc + " modelled as an unconstrained entry (A-EXTERNAL)")
+			fr.vals[in] = c.freshVal(st, "entry", in.Type())
+			return
+		}
 		m, ok := fr.get(in.X).(MapV)
 		if !ok {
 			panic(vcErr("Lookup on %T", fr.get(in.X)))
+		}
+		if _, untracked := m.Entries["\x00untracked"]; untracked {
+			panic(vcErr("lookup in a map with symbolic keys is not modelled"))
 		}
 		k, ok := in.Index.(*ssa.Const)
 		if !ok {
@@ -1164,6 +1228,9 @@ func boolT(b bool) T {
 func (c *Ctx) newID(st *State) T {
 	id := st.alloc
 	st.alloc = incTerm(st.alloc)
+	if c.declared["fun:selem"] {
+		c.emit(fmt.Sprintf("(assert (not (is_elem %s)))", id.S))
+	}
 	return id
 }
 
@@ -1224,6 +1291,10 @@ func (fr *Frame) zeroStruct(st *State, ref T, key string, s *types.Struct) {
 				continue
 			}
 		}
+		if es, ok := f.Type().Underlying().(*types.Struct); ok {
+			fr.zeroStruct(st, ref, key+"."+f.Name(), es)
+			continue
+		}
 		fr.storeLoc(st, "F."+key+"."+f.Name(), ref, f.Type(), zeroVal(f.Type()))
 	}
 }
@@ -1235,6 +1306,12 @@ func (fr *Frame) storeLoc(st *State, base string, key T, t types.Type, v Val) {
 		name := base + suffix
 		h := c.heap(st, name, arrSort(k))
 		c.setHeap(st, name, c.def("F", c.sto(h, key, x)), &key)
+	}
+	if su, ok := t.Underlying().(*types.Struct); ok {
+		if x, ok := v.(StructPtr); ok {
+			fr.copyStructK(st, x.Ref, x.Key, key, strings.TrimPrefix(base, "F."), su)
+			return
+		}
 	}
 	switch x := v.(type) {
 	case T:
@@ -1253,6 +1330,8 @@ func (fr *Frame) storeLoc(st *State, base string, key T, t types.Type, v Val) {
 		put("#iref", SInt, x.Ref)
 	case ErrV:
 		put("#nil", SBool, x.Nil)
+	case OpaqueV:
+		// values that are not modelled (array-valued fields) are not tracked
 	default:
 		panic(vcErr("store of %T into %s unsupported", v, base))
 	}
@@ -1304,6 +1383,12 @@ func (fr *Frame) loadLoc(st *State, base string, key T, t types.Type) Val {
 			return ErrV{get("#nil", SBool)}
 		}
 		return IfaceV{Ref: get("#iref", SInt), Typ: t}
+	case *types.Struct:
+		// a struct-valued field lives inside its parent object: same identity,
+		// field heaps named by the path
+		return StructPtr{key, strings.TrimPrefix(base, "F."), u, t}
+	case *types.Array:
+		return OpaqueV{"array-valued field " + base}
 	}
 	panic(vcErr("load of %s from %s unsupported", t, base))
 }
@@ -1323,6 +1408,11 @@ func (fr *Frame) load(st *State, addr Val, t types.Type, pos token.Pos) Val {
 		return v
 	case ConstElemPtr:
 		return c.sel(a.Arr.Term, a.Idx)
+	case StructPtr:
+		// load of a whole struct value: a copy with its own identity
+		ref := c.newID(st)
+		fr.copyStruct(st, a.Ref, ref, a.Key, a.Typ)
+		return StructPtr{ref, a.Key, a.Typ, a.Nm}
 	case OpaqueV:
 		// global variable: treated as an unknown of its type
 		c.note("read of " + a.Desc + " modelled as an unconstrained value")
@@ -1346,6 +1436,12 @@ func (fr *Frame) store(st *State, addr Val, v Val, pos token.Pos) {
 		fr.storeLoc(st, "F."+a.Key+"."+a.Field, a.Ref, a.Typ, v)
 	case CellPtr:
 		c.setCell(st, a.Key, v)
+	case StructPtr:
+		x, ok := v.(StructPtr)
+		if !ok {
+			panic(vcErr("store of %T into a struct", v))
+		}
+		fr.copyStruct(st, x.Ref, a.Ref, a.Key, a.Typ)
 	case OpaqueV:
 		// store into an opaque location (array of non-scalars): not modelled
 	default:
@@ -1359,7 +1455,14 @@ func (fr *Frame) indexAddr(in *ssa.IndexAddr, st *State) Val {
 	switch b := fr.get(in.X).(type) {
 	case SliceV:
 		if b.Elem == "" {
-			panic(vcErr("index of slice of non-scalar %s", in.X.Type()))
+			if su, ok := b.ElemT.Underlying().(*types.Struct); ok && b.ElemT != nil {
+				c.oblige(st, "bounds", "", nil, and(app(SBool, "<=", intLit(0), idx), app(SBool, "<", idx, b.Len)), in.Pos(),
+					"index in range")
+				return StructPtr{c.sliceElemObj(st, b, idx), typeKey(b.ElemT), su, b.ElemT}
+			}
+			c.oblige(st, "bounds", "", nil, and(app(SBool, "<=", intLit(0), idx), app(SBool, "<", idx, b.Len)), in.Pos(),
+				"index in range")
+			return OpaqueV{"element of a slice of non-scalars"}
 		}
 		c.oblige(st, "bounds", "", nil, and(app(SBool, "<=", intLit(0), idx), app(SBool, "<", idx, b.Len)), in.Pos(),
 			"index in range")
@@ -1754,6 +1857,15 @@ func (v goValue) Parent() *ssa.Function         { return v.g.Parent() }
 func (v goValue) Referrers() *[]ssa.Instruction { return nil }
 func (v goValue) Pos() token.Pos                { return v.g.Pos() }
 
+type deferValue struct{ d *ssa.Defer }
+
+func (v deferValue) Name() string                  { return "defer" }
+func (v deferValue) String() string                { return v.d.String() }
+func (v deferValue) Type() types.Type              { return types.NewTuple() }
+func (v deferValue) Parent() *ssa.Function         { return v.d.Parent() }
+func (v deferValue) Referrers() *[]ssa.Instruction { return nil }
+func (v deferValue) Pos() token.Pos                { return v.d.Pos() }
+
 func baseOfTerm(s string) string {
 	if b, _, ok := splitBaseOff(s); ok {
 		return b
@@ -1766,4 +1878,71 @@ func laterOffset(a, b string) bool {
 	ba, na, ok1 := splitBaseOff(a)
 	bb, nb, ok2 := splitBaseOff(b)
 	return ok1 && ok2 && ba == bb && na >= nb
+}
+
+// subObj: identity of the struct-valued field <base> of object key.
+func (c *Ctx) subObj(base string, key T) T {
+	fn := "sub." + sanitize(base)
+	c.declareFun(fn, []Sort{SInt}, SInt)
+	return app(SInt, fn, key)
+}
+
+// sliceElemObj: identity of element idx of a slice of structs. Elements of
+// slices that exist at entry are objects that exist at entry, and distinct
+// elements are distinct objects.
+func (c *Ctx) sliceElemObj(st *State, s SliceV, idx T) T {
+	if !c.declared["fun:selem"] {
+		c.declareFun("selem", []Sort{SInt, SInt}, SInt)
+		c.declareFun("selem_s", []Sort{SInt}, SInt)
+		c.declareFun("selem_i", []Sort{SInt}, SInt)
+		c.declareFun("is_elem", []Sort{SInt}, SBool)
+		c.declared["fun:selem"] = true
+		c.emit("(assert (forall ((q_s_1 Int) (q_i_1 Int)) (! (is_elem (selem q_s_1 q_i_1)) :pattern ((selem q_s_1 q_i_1)))))")
+		c.emit("(assert (forall ((q_s_0 Int) (q_i_0 Int)) (! (and (= (selem_s (selem q_s_0 q_i_0)) q_s_0) (= (selem_i (selem q_s_0 q_i_0)) q_i_0) (> (selem q_s_0 q_i_0) 0)) :pattern ((selem q_s_0 q_i_0)))))")
+	}
+	return app(SInt, "selem", s.ID, addInt(s.Off, idx))
+}
+
+// copyStruct copies every field of the struct object src into dst (same type key).
+func (fr *Frame) copyStruct(st *State, src, dst T, key string, s *types.Struct) {
+	fr.copyStructK(st, src, key, dst, key, s)
+}
+
+// copyStructK copies the fields of (src, skey) into (dst, dkey).
+func (fr *Frame) copyStructK(st *State, src T, skey string, dst T, dkey string, s *types.Struct) {
+	for i := 0; i < s.NumFields(); i++ {
+		f := s.Field(i)
+		if es, ok := f.Type().Underlying().(*types.Struct); ok {
+			if f.Embedded() {
+				fr.copyStructK(st, src, typeKey(f.Type()), dst, typeKey(f.Type()), es)
+			} else {
+				fr.copyStructK(st, src, skey+"."+f.Name(), dst, dkey+"."+f.Name(), es)
+			}
+			continue
+		}
+		v := fr.loadLoc(st, "F."+skey+"."+f.Name(), src, f.Type())
+		if _, opaque := v.(OpaqueV); opaque {
+			continue
+		}
+		fr.storeLoc(st, "F."+dkey+"."+f.Name(), dst, f.Type(), v)
+	}
+}
+
+// String constants are interned: distinct constants are distinct integers,
+// the empty string is 1000000; strings of unknown content are unconstrained
+// integers (only equality is modelled).
+var (
+	stringTable   = map[string]int64{"": 1000000}
+	stringTableMu sync.Mutex
+)
+
+func internString(v string) int64 {
+	stringTableMu.Lock()
+	defer stringTableMu.Unlock()
+	if id, ok := stringTable[v]; ok {
+		return id
+	}
+	id := int64(1000000 + len(stringTable))
+	stringTable[v] = id
+	return id
 }
